@@ -60,7 +60,11 @@ def gen_case(rng):
             f[rng.choice(["major", "minor", "patch"])] = rng.choice([2 ** 32, 2 ** 63, 2 ** 64 - 1])
         tag = c07.canon_semver(f) if rng.random() < 0.5 or max(f["major"], f["minor"], f["patch"]) > 2 ** 32 - 1 else c07.canon_pep440(f)
         argv = ["--source", "none", "--tag-version", tag]
-        if rng.random() < 0.75:
+        if rng.random() < 0.06:
+            # "arbitrary branch names": long ones too - the emitted version grows with them and zerv's own parser has to take it back
+            n = rng.choice([600, 1030, 1100, 2100, 5000, 20000])
+            argv += ["--bumped-branch=" + rng.choice(["feature/" + "x" * n, "/".join(["seg%d" % i for i in range(n // 5)]), "wip-" + "ab-" * (n // 3), "é" + "long/" * (n // 5) + "1"])]
+        elif rng.random() < 0.75:
             argv += ["--bumped-branch=" + (hostile(rng))]
         if rng.random() < 0.6:
             argv += ["--bumped-commit-hash", rng.choice([hostile(rng), "g" + "".join(rng.choice("0123456789abcdef") for _ in range(rng.choice([3, 7, 8, 40]))), "0000000", "1234567" + "é"])]
